@@ -147,7 +147,7 @@ fn region_positions(s: &Seed) -> Vec<(u64, Option<usize>)> {
 }
 
 pub fn run(ctx: &mut Ctx) {
-    ctx.rule("flips: EVERY single-bit flip inside every entry's data region and central CRC field of the small seed archives (all methods, ZipCrypto, AE-1/AE-2, crate-written and reference-built), each read with a caller-buffer schedule from {1,2,3,7,64,4096, zero-length interleaved} through the seekable and the streaming reader; damage: random multi-byte damage, truncated payloads (sizes adjusted) and payloads swapped between entries. Oracle: a read that reaches end-of-file without error has CRC(bytes)==crc32() unless the entry is an encrypted AE-2 entry; a flipped stored entry must fail. Non-trivial = the mutant still opens and the damaged entry was opened and read to a terminal state.");
+    ctx.rule("flips: EVERY single-bit flip inside every entry's data region and central CRC field of the small seed archives (all methods, ZipCrypto, AE-1/AE-2, crate-written and reference-built), each read with a caller-buffer schedule from {1,2,3,7,64,4096, zero-length interleaved} through the seekable and the streaming reader; crc_values: every entry's declared CRC (central record / local header) replaced by 0, all ones, 1, the top bit, its complement, record signatures, a rotation; damage: random multi-byte damage, truncated payloads (sizes adjusted) and payloads swapped between entries. Oracle: a read that reaches end-of-file without error has CRC(bytes)==crc32() unless the entry is an encrypted AE-2 entry; a flipped stored entry must fail. Non-trivial = the mutant still opens and the damaged entry was opened and read to a terminal state.");
     ctx.assume("AE-2 exemption applies to entries that are actually AES-encrypted (flag bit 0 + AE-2 record); an unencrypted entry that merely carries an AE-2 extra record is not exempt");
     if let Some(c) = ctx.replay_case("fuzz_raw") {
         let bytes = crate::util::unhex(c["bytes"].as_str().unwrap_or("")).unwrap_or_default();
@@ -193,6 +193,61 @@ pub fn run(ctx: &mut Ctx) {
                 Ok(Err(m)) => Verdict::Fail(format!("seed {} flip byte {} bit {}: {m}", s.name, f.pos, f.bit)),
                 Err(p) => {
                     // panics on damaged input are C05's subject; here only the CRC invariant is judged
+                    if p.contains("/repo/src") {
+                        Verdict::Pass
+                    } else {
+                        Verdict::Fail(format!("PANIC in harness: {p}"))
+                    }
+                }
+            }
+        },
+    );
+    // declared CRC replaced by special VALUES (not reachable by one bit flip): 0, all ones, 1, the top
+    // bit, the complement, record signatures - in the central record (seekable reader) and in the local
+    // header (streaming reader)
+    #[derive(Clone, Debug, Serialize, Deserialize, Hash)]
+    struct CrcVal {
+        seed: usize,
+        entry: usize,
+        val: u8,
+        local: bool,
+        bufsel: u8,
+    }
+    let mut cidx: Vec<(usize, usize)> = Vec::new();
+    for (si, s) in seeds.iter().enumerate() {
+        for e in 0..s.crc_fields.len().min(s.local_crc_fields.len()) {
+            cidx.push((si, e));
+        }
+    }
+    ctx.enumerate::<CrcVal>(
+        "crc_values",
+        cidx.len() as u64 * 8 * 2,
+        &|k| {
+            let (seed, entry) = cidx[(k / 16) as usize];
+            CrcVal { seed, entry, val: (k % 8) as u8, local: (k / 8) % 2 == 1, bufsel: (k % 7) as u8 }
+        },
+        &|c: &CrcVal, info: &mut Info| {
+            let s = &seeds[c.seed];
+            let mut b = s.bytes.clone();
+            let off = if c.local { s.local_crc_fields[c.entry] } else { s.crc_fields[c.entry] } as usize;
+            if off + 4 > b.len() {
+                return Verdict::Pass;
+            }
+            let cur = u32::from_le_bytes(b[off..off + 4].try_into().unwrap());
+            let v = [0u32, 0xFFFF_FFFF, 1, 0x8000_0000, !cur, 0x0403_4b50, 0x0807_4b50, cur.rotate_left(8)][c.val as usize];
+            if v == cur {
+                return Verdict::Pass;
+            }
+            b[off..off + 4].copy_from_slice(&v.to_le_bytes());
+            let mut t = Tally::default();
+            // a wrong declared CRC in the central record must make the seekable read of a stored entry fail
+            let r = catch(|| invariant(&b, s, c.bufsel as usize, if c.local { None } else { Some(c.entry) }, &mut t));
+            info.nontrivial = t.opened > 0;
+            info.label(if c.local { "local-header-crc" } else { "central-crc" });
+            match r {
+                Ok(Ok(())) => Verdict::Pass,
+                Ok(Err(m)) => Verdict::Fail(format!("seed {} entry {}: declared CRC {cur:#010x} replaced by {v:#010x} in the {}: {m}", s.name, c.entry, if c.local { "local header" } else { "central record" })),
+                Err(p) => {
                     if p.contains("/repo/src") {
                         Verdict::Pass
                     } else {
